@@ -7,6 +7,8 @@ From Verif Require Import c05.ModelWorker c05.SpecWorker c05.Proofs_Worker.
 From Verif Require Import c05.ModelRanker c05.SpecRanker c05.Proofs_Ranker.
 From Verif Require Import c05.Proofs_LimiterMon c05.Proofs_WorkerMon.
 From Verif Require Import c05.ModelSync c05.SpecSync c05.Proofs_Sync c05.SpecDialPeer.
+From Verif Require Import c05.ModelComposite c05.SpecComposite c05.Proofs_Composite c05.Proofs_Composite2 c05.Proofs_Composite3.
+From Verif Require Import c05.Proofs_Composite4 c05.Proofs_Composite5 c05.Proofs_Composite6 c05.Proofs_CompositeMon.
 Import ListNotations.
 Local Open Scope Z_scope.
 
@@ -200,6 +202,124 @@ Theorem c05_ranker_sort_instance : forall l, Permutation (sort_score l) l.
 Proof. exact sort_score_perm. Qed.
 Print Assumptions c05_ranker_sort_instance.
 
+(* ---- the composite: dialPeer -> dialSync.Dial -> one worker loop per active dial -> limiter
+   ModelComposite.cstep is a labelled transition system whose labels are the sections the
+   code makes atomic (see the table in ModelComposite.v); it moves the component models
+   only by their own steps.  [reach fdl ppl fd ls] is the state after the schedule [ls],
+   an arbitrary list of labels (a label whose guard is false is a no-op).  wf_label: a
+   ranking lists each address once, a transport never reports ErrDialBackoff itself. *)
+
+(* global FD cap and per-peer cap, on the limiter's counters and on the dials in progress *)
+Theorem c05_composite_caps : forall fdl ppl fd ls, 0 <= fdl -> 0 <= ppl ->
+  let l := c_lim (reach fdl ppl fd ls) in
+  0 <= fdConsuming l <= fdl /\ (forall p, 0 <= act_get p (activePerPeer l) <= ppl) /\
+  cnt_fd (dialing l) <= fdl /\ (forall p, cnt_peer p (dialing l) <= ppl).
+Proof. exact composite_caps_l. Qed.
+Print Assumptions c05_composite_caps.
+
+(* at most one worker with an open reqch per peer at any time (workers started = workers
+   whose reqch was closed + 1 if an active dial exists), refCnt counts the callers inside,
+   and all callers inside for one peer share one generation (one activeDial, one worker) *)
+Theorem c05_composite_one_worker_per_peer : forall fdl ppl fd ls,
+  let s := reach fdl ppl fd ls in
+  (forall p, let ps := sget p (c_sync s) in
+     p_started ps = p_stopped ps + (if p_active ps then 1 else 0) /\
+     p_ref ps = Z.of_nat (length (p_inside ps))) /\
+  (forall c c' r r', cget c s = Some r -> cget c' s = Some r' ->
+     cr_phase r <> PReturned -> cr_phase r' <> PReturned -> cr_peer r = cr_peer r' -> cr_gen r = cr_gen r').
+Proof.
+  intros fdl ppl fd ls s. split.
+  - intros p ps. destruct (composite_sync_ok fdl ppl fd ls p) as [R _ W _ _ _]. auto.
+  - apply callers_share_l.
+Qed.
+Print Assumptions c05_composite_one_worker_per_peer.
+
+(* each DialPeer call gets exactly one answer: never two ... *)
+Theorem c05_composite_answered_at_most_once : forall fdl ppl fd ls,
+  NoDup (map fst (c_rets (reach fdl ppl fd ls))).
+Proof. exact answered_at_most_once_l. Qed.
+Print Assumptions c05_composite_answered_at_most_once.
+
+(* ... and a caller inside always has a way to its answer: once its worker has nothing
+   scheduled and nothing in flight the response is there for CLeave to take (the timer
+   firing and dials reporting are the environment's part), and a cancelled caller is
+   answered by its own next step whatever the others do *)
+Theorem c05_composite_answer_available : forall fdl ppl fd ls, 0 <= fdl -> 0 <= ppl -> Forall wf_label ls ->
+  let s := reach fdl ppl fd ls in
+  forall c r, cget c s = Some r -> cr_phase r = PWaiting ->
+  let w := wget (cr_gen r) s in
+  w_dq w = [] -> w_inflight w = 0 -> resp_of c (w_resps w) <> None.
+Proof. exact answer_available_l. Qed.
+Print Assumptions c05_composite_answer_available.
+
+Theorem c05_composite_cancelled_caller_returns : forall s c r pick,
+  cget c s = Some r -> cr_phase r <> PReturned -> cr_canc r = true ->
+  In c (map fst (c_rets (cstep s (CLeave c pick)))).
+Proof. exact cancelled_caller_returns_l. Qed.
+Print Assumptions c05_composite_cancelled_caller_returns.
+
+(* dedup: per worker an address is dialed at most once, and there is exactly one limiter
+   job per dialed address *)
+Theorem c05_composite_dedup : forall fdl ppl fd ls, 0 <= fdl -> 0 <= ppl -> Forall wf_label ls ->
+  let s := reach fdl ppl fd ls in
+  (forall g, NoDup (w_dials (wget g s))) /\
+  (forall n n' j j', jget n s = Some j -> jget n' s = Some j' -> jr_gen j = jr_gen j' -> jr_addr j = jr_addr j' -> n = n') /\
+  (forall n j, jget n s = Some j -> In (jr_addr j) (w_dials (wget (jr_gen j) s))).
+Proof. exact dedup_l. Qed.
+Print Assumptions c05_composite_dedup.
+
+(* a caller that leaves - cancelled by its own context or answered - does not cancel the
+   dials another caller of the same peer still waits for: that caller's generation keeps
+   its active dial, its running worker and its uncancelled shared context *)
+Theorem c05_composite_leaving_caller_keeps_shared_dials : forall fdl ppl fd ls c pick,
+  let s := reach fdl ppl fd ls in
+  let s' := cstep s (CLeave c pick) in
+  forall c' r', c' <> c -> cget c' s = Some r' -> cr_phase r' <> PReturned ->
+    aget None (cr_peer r') (c_gen s') = Some (cr_gen r') /\
+    w_stopped (wget (cr_gen r') s') = false /\ ~ In (cr_gen r') (cancelledG (c_lim s')) /\
+    p_active (sget (cr_peer r') (c_sync s')) = true.
+Proof. exact leaving_keeps_others_l. Qed.
+Print Assumptions c05_composite_leaving_caller_keeps_shared_dials.
+
+(* once all requesters are gone no active dial is leaked *)
+Theorem c05_composite_no_leaked_active_dial : forall fdl ppl fd ls,
+  let s := reach fdl ppl fd ls in
+  (forall c r, cget c s = Some r -> cr_phase r = PReturned) ->
+  forall p, p_active (sget p (c_sync s)) = false /\ aget None p (c_gen s) = None /\
+            p_started (sget p (c_sync s)) = p_stopped (sget p (c_sync s)) /\ p_ref (sget p (c_sync s)) = 0.
+Proof. exact no_leaked_active_dial_l. Qed.
+Print Assumptions c05_composite_no_leaked_active_dial.
+
+(* "every address ... is attempted unless ... every caller has given up": in the composite a
+   job of a live generation must stay in the limiter until it reports (NLJ).  This is FALSE
+   of the faithful model: the deferred clearAllPeerDials of a worker that returns late deletes
+   the per-peer queue wholesale, including the live jobs of a newer active dial for the same
+   peer (schedule stale_exit_schedule; replayed on the implementation by the corpus scenario
+   c05DialPeerStaleExit, known finding).  It holds for every schedule in which a closed
+   worker returns only while no live job waits on its peer's limit. *)
+Theorem c05_composite_no_lost_job_refuted :
+  exists ls, Forall wf_label ls /\ ~ NLJ (reach 4 1 [1; 2] ls).
+Proof. exact no_lost_job_refuted_l. Qed.
+Print Assumptions c05_composite_no_lost_job_refuted.
+
+Theorem c05_composite_no_lost_job_partial : forall fdl ppl fd ls, 0 <= fdl -> 0 <= ppl ->
+  Forall wf_label ls -> safe_run (init_c fdl ppl fd) ls -> NLJ (reach fdl ppl fd ls).
+Proof. exact no_lost_job_partial_l. Qed.
+Print Assumptions c05_composite_no_lost_job_partial.
+
+(* HEADLINE (composite): the DialPeer monitor that judges the implementation's traces, run
+   on the trace of the composite model under the harness-level semantics (SpecComposite:
+   one stimulus, then every enabled step until nothing moves), never reports clause 4 (caps).
+   _partial: clauses 1-3, 5-8 are not proved over the model traces (they need a coupling of
+   the monitor's caller/dial bookkeeping with the composite state and a completeness argument
+   for the drain; their state-level counterparts are the theorems above), and clause 9
+   (every candidate attempted) is false of the model on the schedule of the finding. *)
+Theorem c05_composite_monitor_accepts_partial : forall fdl ppl fds xs, 0 <= fdl -> 0 <= ppl ->
+  forall d, monitor_d fdl ppl (mkDmon [] [] [] false false) 0 (ctrace (init_denv, init_c fdl ppl fds) xs) = d ->
+  d = [] \/ exists j c, d = [ERR_PROPERTY; j; c] /\ c <> 4.
+Proof. exact monitor_d_accepts_partial_l. Qed.
+Print Assumptions c05_composite_monitor_accepts_partial.
+
 (* ---- non-vacuity ----------------------------------------------------------------- *)
 (* the history of the repaired defect reaches a state with a queued live job and
    the FD cap exactly saturated *)
@@ -272,7 +392,15 @@ Proof. vm_compute. discriminate. Qed.
 (* the DialPeer monitor rejects a trace in which cancelling one caller ends the dials
    the other caller still waits for *)
 Example dialpeer_monitor_rejects_shared_cancel :
-  monitor_d_case [2; 4;  1; 1; 0; 0;  0; 1; 7; 0;  1; 1; 1; 1; 1; 0; 1;
-                         1; 2; 0; 0;  0; 0; 0;     1; 1; 1; 1; 1; 0; 2;
-                         4; 1;        1; 1; 2; 0; 1; 7;  0; 0; 0; 0; 1; 0; 1] <> [].
+  monitor_d_case [2; 4; 0;  1; 1; 0; 0; 1; 1; 7; 0;  0; 1; 7; 0;  1; 1; 1; 1; 1; 0; 1;
+                            1; 2; 0; 0; 1; 1; 7; 0;  0; 0; 0;     1; 1; 1; 1; 1; 0; 2;
+                            4; 1;        1; 1; 2; 0; 1; 7;  0; 0; 0; 0; 1; 0; 1] <> [].
 Proof. vm_compute. discriminate. Qed.
+
+(* the witness of the finding, evaluated: job 6 (generation 4, live) is queued before the old
+   worker returns and gone afterwards *)
+Example composite_stale_exit_loses_job :
+  let s := reach 4 1 [1; 2] stale_exit_schedule in
+  jget 6 s = Some (mkJ 4 2 false) /\ cancelledG (c_lim s) = [1] /\ in_limiter (c_lim s) 6 = false /\
+  in_limiter (c_lim (reach 4 1 [1; 2] (removelast stale_exit_schedule))) 6 = true.
+Proof. exact stale_exit_loses_job. Qed.
